@@ -1318,10 +1318,13 @@ class Reaction(Object):
                 )
             else:
                 # Reset them with add_metabolites
-                mets_to_reset = {
-                    key: old_coefficients[model.metabolites.get_by_any(key)[0]]
-                    for key in metabolites_to_add.keys()
-                }
+                # Look the metabolites up by identifier: a key may be an
+                # identifier, a copy of the model's metabolite or a metabolite
+                # that is new to the reaction (old coefficient zero).
+                mets_to_reset = {}
+                for key in metabolites_to_add.keys():
+                    met = model.metabolites.get_by_id(str(key))
+                    mets_to_reset[met] = old_coefficients.get(met, 0)
 
                 context(
                     partial(
